@@ -28,6 +28,8 @@
 (*   j6_finite  the requested J6 (argument or previous J6) is finite           *)
 (*   huge     the previous vector is of the order of 1e9 turns (soundness only) *)
 (*   fwd_n    distance of the stack's forward / link poses from the model   *)
+(*   lim_reported  Kinematics::constraints() of the stack equals the limits     *)
+(*            given to the innermost robot (or none)                       *)
 (*   twin_shift5  2 * sign5 * offset5 (AU): the wrist twin negates the     *)
 (*            geometric J5                                                 *)
 (***************************************************************************)
@@ -133,6 +135,9 @@ Constrained(c) ==
     \cup (IF c.truth.known /\ c.truth.wrist_ok /\ \E i \in 1..Len(qs) : ~\E k \in 1..Len(c.free) : eq(qs[i], c.free[k])
           THEN {"C08:answer-not-among-unconstrained"} ELSE {})
 
+\* "The limits a wrapper reports are those of the robot it wraps" (from, to, centres, tolerances, weight)
+Reported(c) == IF c.lim_reported THEN {} ELSE {"C08:wrapper-reports-other-limits"}
+
 \* ---- C16: through a parallelogram coupling every answer still maps back onto the pose ----
 Coupled(c) ==
   IF c.pgram /\ "C01:answer-misses-pose" \in Sound(c) THEN {"C16:answer-misses-pose-through-coupling"} ELSE {}
@@ -144,5 +149,5 @@ ForwardOk(c) ==
   ELSE IF c.pgram THEN {"C16:forward-or-link-poses-differ-from-inner-robot-at-reduced-vector"}
   ELSE {"C09:forward-or-link-poses-differ-from-base-robot-tool"}
 
-Contract(c) == ForwardOk(c) \cup Complete5(c) \cup Sound(c) \cup Complete(c) \cup Ordered(c) \cup FiveDofOk(c) \cup Constrained(c) \cup Coupled(c)
+Contract(c) == ForwardOk(c) \cup Complete5(c) \cup Sound(c) \cup Complete(c) \cup Ordered(c) \cup FiveDofOk(c) \cup Constrained(c) \cup Reported(c) \cup Coupled(c)
 =============================================================================
